@@ -62,6 +62,8 @@ def run(ck, F, tier):
               reviewed={"call:unwrap": (1, "fmt::Write for String never returns Err, so write_alist*() into a String cannot fail")}).run()
 
     # ---- P3 / P4: writer -----------------------------------------------------------------
+    from ..idioms import zip_components, as_closure
+    from ..symx import unkey
     wb = F.body(W)
     tw = Tracer(F, r"std::fmt::Write::write_fmt|core::slice::<impl \[T\]>::sort_unstable(_by)?|core::slice::<impl \[T\]>::sort", mode="int",
                 inline=lambda p_: F.private_helper(p_, "sparse::"))      # private helpers of the module (e.g. a max-weight function) are expanded
@@ -113,8 +115,26 @@ def run(ck, F, tier):
     ck.inst("P3", "writer:one-based-map", len(cl) == 1 and strip(cl[0]["body"]["r"]).get("v") == 1, cl[0]["sp"] if cl else wb.span,
             "the per-line iterator maps x -> x + 1 (first and following tokens alike)")
     sorted_ok = len(sorts) == 1 and len(sorts[0].loops) == 2 and writes.index(el_writes[0]) > tw.events.index(sorts[0]) - len([x for x in tw.events[:tw.events.index(sorts[0])] if not x.callee.endswith("write_fmt")]) if el_writes and sorts else False
-    ck.inst("P3", "writer:sorted", len(sorts) == 1 and len(sorts[0].loops) == 2, sorts[0].site if sorts else wb.span,
-            "each index list is sorted (sort_unstable on the per-line copy) before it is formatted")
+    # the sort runs for every list, or is skipped only for a list found already sorted (all adjacent pairs in order)
+    def only_skips_sorted(gs):
+        for g_, p_ in gs:
+            ga_ = single_atom(g_) if isinstance(g_, Poly) else None
+            if ga_ is None or atom_fn(ga_) != "std::iter::Iterator::all" or p_ is not False:
+                return False
+            d_ = unkey(ga_[2])
+            d_ = d_[1] if isinstance(d_, tuple) and d_ and d_[0] == "iterdesc" else d_
+            if not (isinstance(d_, tuple) and d_[0] == "windows" and d_[2] in (num(2), ("P", num(2)))):
+                return False
+            try:
+                pv_ = tw.apply(as_closure(F, tw, ga_[3]), [var("w#g")])
+            except Unsupported:
+                return False
+            pa_ = single_atom(pv_) if isinstance(pv_, Poly) else None
+            if pa_ is None or atom_fn(pa_) not in ("le", "lt") or list(atom_args(pa_)) != [app("index", var("w#g"), num(0)), app("index", var("w#g"), num(1))]:
+                return False
+        return True
+    ck.inst("P3", "writer:sorted", len(sorts) == 1 and len(sorts[0].loops) == 2 and only_skips_sorted(sorts[0].guards), sorts[0].site if sorts else wb.span,
+            "each index list is sorted (sort_unstable on the per-line copy) before it is formatted; the sort may be skipped only for a list whose adjacent pairs are all in order")
     # the maximum-weight line: max over all column lists, then max over all row lists (0 for a matrix without columns / rows)
     from ..idioms import zip_components, as_closure
     from ..symx import unkey
